@@ -619,7 +619,7 @@ pub fn c14(tier: Tier) -> i32 {
         let label = format!("--path {:?} toml-path {:?} ./contracts exists: {} configuration file: {}", flag, tomlp, contracts, loc);
         match expect_file {
             Some(f) => {
-                let names: Vec<String> = rep.as_ref().map(|r| report::parse_report(r, &tb).entries.values().flatten().map(|e| e.0.clone()).collect()).unwrap_or_default();
+                let names: Vec<String> = rep.as_ref().map(|r| report::parse_report(r, &tb).entries.values().flatten().map(|e| crate::fsx::base_name(&e.0)).collect()).unwrap_or_default();
                 if out.code != Some(0) || names.iter().any(|n| n != f) || names.is_empty() {
                     run.violation(Violation {
                         site: format!("binary:directory:{}", if flag.is_some() { "flag-not-used" } else if tomlp.is_some() { "toml-path-not-used" } else { "default-not-used" }),
@@ -635,7 +635,7 @@ pub fn c14(tier: Tier) -> i32 {
             None => {
                 // the resolved directory does not exist: the property does not say whether that is an error or an
                 // empty analysis, only that no OTHER directory is analysed instead
-                let names: Vec<String> = rep.as_ref().map(|r| report::parse_report(r, &tb).entries.values().flatten().map(|e| e.0.clone()).collect()).unwrap_or_default();
+                let names: Vec<String> = rep.as_ref().map(|r| report::parse_report(r, &tb).entries.values().flatten().map(|e| crate::fsx::base_name(&e.0)).collect()).unwrap_or_default();
                 if !names.is_empty() {
                     run.violation(Violation {
                         site: "binary:directory:another-directory-analysed-instead-of-the-missing-one".into(),
